@@ -11,7 +11,9 @@ echo "## confirm $id $(date -u +%FT%TZ)"
 git stash -q 2>/dev/null; git checkout -q -- . ; git clean -fdq -e target
 git apply $out/patch.diff && echo "patch applies: yes" || { echo "patch applies: NO"; exit 1; }
 echo "## existing suite with patch"
-cargo test --workspace --offline 2>&1 | grep -E "^test result|FAILED|failed|error(\[|:)" | sort | uniq -c | sort -rn | head -20
+cargo test --workspace --offline > $out/suite.log 2>&1
+echo "suite ok-results: $(grep -c '^test result: ok' $out/suite.log)  FAILED-results: $(grep -c '^test result: FAILED' $out/suite.log)  passed-total: $(grep '^test result' $out/suite.log | sed -E 's/.* ([0-9]+) passed.*/\1/' | paste -sd+ | bc)  failed-tests: $(grep -cE '^test .* FAILED' $out/suite.log)  compile-errors: $(grep -cE '^error' $out/suite.log)"
+rm -f $out/suite.log
 echo "## demo with patch (expect failure)"
 cp $out/demo/$demo $crate/tests/$demo
 name="${demo%.rs}"
